@@ -263,6 +263,15 @@ Section Model.
   (* ------------------------------------------------------------------ the item a cursor denotes *)
   Definition oget {A} (o : option A) : outcome A := match o with Some a => OVal a | None => OCrash end.
 
+  (* the Tuple a Zip hands out: the item under every input's cursor *)
+  Definition zip_vals (valf : iterable -> cur -> outcome val) : list iterable -> list cur -> outcome (list val) :=
+    fix go (us : list iterable) (cs : list cur) : outcome (list val) :=
+      match us, cs with
+      | [], [] => OVal []
+      | u' :: us', c' :: cs' => do v <- valf u' c'; do r <- go us' cs'; OVal (v :: r)
+      | _, _ => OCrash
+      end.
+
   Fixpoint cur_val (u : iterable) (c : cur) {struct u} : outcome val :=
     match u, c with
     | IArray xs, CPos i => oget (znth xs i)
@@ -273,14 +282,7 @@ Section Model.
     | ITable slots, CPos i => match znth slots i with Some (Some k) => OVal k | _ => OCrash end
     | IRange _, CInt v => OVal (VInt v)
     | ISlice u' _, CSlice c' _ => cur_val u' c'
-    | IZip us, CZip cs =>
-      do vs <- (fix go (us : list iterable) (cs : list cur) : outcome (list val) :=
-                  match us, cs with
-                  | [], [] => OVal []
-                  | u' :: us', c' :: cs' => do v <- cur_val u' c'; do r <- go us' cs'; OVal (v :: r)
-                  | _, _ => OCrash
-                  end) us cs;
-      OVal (VTup vs)
+    | IZip us, CZip cs => do vs <- zip_vals cur_val us cs; OVal (VTup vs)
     | IFilter _ u', c' => cur_val u' c'
     | IMap _ _, CMap _ v => OVal v
     | _, _ => OCrash
@@ -288,6 +290,14 @@ Section Model.
 
   (* ------------------------------------------------------------------ len *)
   Definition implements_len (u : iterable) : bool := match u with IFilter _ _ => false | _ => true end.
+
+  (* Zip_Len: mlen = num < mlen ? num : mlen over the inputs after the first *)
+  Definition zip_len_rest (lenf : iterable -> outcome Z) : list iterable -> Z -> outcome Z :=
+    fix go (us : list iterable) (m : Z) : outcome Z :=
+      match us with
+      | [] => OVal m
+      | u' :: r => do n <- lenf u'; go r (if n <? m then n else m)
+      end.
 
   Fixpoint it_len (u : iterable) : outcome Z :=
     match u with
@@ -302,12 +312,7 @@ Section Model.
       match us with
       | [] => OVal 0
       | u0 :: rest =>
-        do m <- it_len u0;
-        (fix go (us : list iterable) (m : Z) : outcome Z :=
-           match us with
-           | [] => OVal m
-           | u' :: r => do n <- it_len u'; go r (if n <? m then n else m)
-           end) rest m
+        do m <- it_len u0; zip_len_rest it_len rest m
       end
     | IFilter _ _ => ORaise EClass
     | IMap _ u' => it_len u'
@@ -340,6 +345,36 @@ Section Model.
     | Some c' => do v <- valf c'; OVal (Some (CMap c' (f v)))
     end.
 
+  (* Zip: for every input in order, step its cursor; Terminal as soon as one input is at its end *)
+  Definition zip_steps (stepf : iterable -> cur -> outcome (option cur))
+    : list iterable -> list cur -> list cur -> outcome (option cur) :=
+    fix go (us : list iterable) (cs acc : list cur) : outcome (option cur) :=
+      match us, cs with
+      | [], [] => OVal (Some (CZip (rev acc)))
+      | u' :: us', c' :: cs' =>
+        do n <- stepf u' c';
+        match n with None => OVal None | Some c2 => go us' cs' (c2 :: acc) end
+      | _, _ => OCrash
+      end.
+  Definition zip_starts (startf : iterable -> outcome (option cur))
+    : list iterable -> list cur -> outcome (option cur) :=
+    fix go (us : list iterable) (acc : list cur) : outcome (option cur) :=
+      match us with
+      | [] => OVal (Some (CZip (rev acc)))
+      | u' :: us' =>
+        do c <- startf u';
+        match c with None => OVal None | Some c2 => go us' (c2 :: acc) end
+      end.
+  (* mlen = min over the inputs of their number of items *)
+  Definition zip_minlen (lenf : iterable -> outcome Z) : list iterable -> option Z -> outcome Z :=
+    fix mn (us : list iterable) (m : option Z) : outcome Z :=
+      match us with
+      | [] => OVal (match m with Some x => x | None => 0 end)
+      | u' :: r =>
+        do n <- lenf u';
+        mn r (Some (match m with Some x => if n <? x then n else x | None => n end))
+      end.
+
   Definition ostep (d : dir) (r : rng) (v : Z) := match d with Fwd => range_next r v | Bwd => range_prev r v end.
   Definition ostart (d : dir) (r : rng) := match d with Fwd => range_init r | Bwd => range_last r end.
 
@@ -366,15 +401,7 @@ Section Model.
     | IZip us, CZip cs =>
       match us with
       | [] => OVal None
-      | _ =>
-        (fix go (us : list iterable) (cs acc : list cur) : outcome (option cur) :=
-           match us, cs with
-           | [], [] => OVal (Some (CZip (rev acc)))
-           | u' :: us', c' :: cs' =>
-             do n <- it_step fuel d u' c';
-             match n with None => OVal None | Some c2 => go us' cs' (c2 :: acc) end
-           | _, _ => OCrash
-           end) us cs []
+      | _ => zip_steps (it_step fuel d) us cs []
       end
     | IFilter p u', c' =>
       do c1 <- it_step fuel d u' c';
@@ -441,38 +468,19 @@ Section Model.
       match us with
       | [] => OVal None
       | _ =>
+        (* Zip_Item_Len: len if the input implements Len, else a forward count *)
         let item_len (u' : iterable) : outcome Z :=
           if implements_len u' then it_len u'
           else do c0 <- it_start fuel Fwd u'; count_loop (it_step fuel Fwd u') fuel c0 0 in
-        let collect (back : Z -> Z) :=
-          (fix go (us : list iterable) (acc : list cur) : outcome (option cur) :=
-             match us with
-             | [] => OVal (Some (CZip (rev acc)))
-             | u' :: us' =>
-               do c <- (match d with
-                        | Fwd => it_start fuel Fwd u'
-                        | Bwd =>
-                          if zip_last_aligned R then
-                            do n <- item_len u';
-                            do c0 <- it_start fuel Bwd u';
-                            step_n (it_step fuel Bwd u') (Z.to_nat (back n)) c0
-                          else it_start fuel Bwd u'
-                        end);
-               match c with None => OVal None | Some c2 => go us' (c2 :: acc) end
-             end) us [] in
         match d with
-        | Fwd => collect (fun n => 0)
+        | Fwd => zip_starts (it_start fuel Fwd) us []
         | Bwd =>
           if zip_last_aligned R then
-            do mlen <- (fix mn (us : list iterable) (m : option Z) : outcome Z :=
-                          match us with
-                          | [] => OVal (match m with Some x => x | None => 0 end)
-                          | u' :: r =>
-                            do n <- item_len u';
-                            mn r (Some (match m with Some x => if n <? x then n else x | None => n end))
-                          end) us None;
-            collect (fun n => n - mlen)
-          else collect (fun n => 0)
+            do mlen <- zip_minlen item_len us None;
+            zip_starts (fun u' => do n <- item_len u';
+                                  do c0 <- it_start fuel Bwd u';
+                                  step_n (it_step fuel Bwd u') (Z.to_nat (n - mlen)) c0) us []
+          else zip_starts (it_start fuel Bwd) us []
         end
       end
     | IFilter p u' =>
@@ -488,6 +496,13 @@ Section Model.
     let i := if key <? 0 then zlen xs + key else key in
     match znth xs i with Some v => OVal v | None => ORaise EIndex end.
 
+  Definition zip_gets (getf : iterable -> outcome val) : list iterable -> outcome (list val) :=
+    fix go (us : list iterable) : outcome (list val) :=
+      match us with
+      | [] => OVal []
+      | u' :: r => do v <- getf u'; do vs <- go r; OVal (v :: vs)
+      end.
+
   Fixpoint it_get (u : iterable) (key : Z) : outcome val :=
     match u with
     | IArray xs => seq_get xs key
@@ -498,12 +513,7 @@ Section Model.
     | IRange r => do v <- range_get r key; OVal (VInt v)
     | ISlice u' r => do p <- range_get r key; it_get u' p
     | IZip us =>
-      do vs <- (fix go (us : list iterable) : outcome (list val) :=
-                  match us with
-                  | [] => OVal []
-                  | u' :: r => do v <- it_get u' key; do vs <- go r; OVal (v :: vs)
-                  end) us;
-      OVal (VTup vs)
+      do vs <- zip_gets (fun u' => it_get u' key) us; OVal (VTup vs)
     | IFilter _ _ => ORaise EClass
     | IMap f u' => do v <- it_get u' key; OVal (f v)
     end.
